@@ -2,26 +2,56 @@ import Invoke.Lemmas.RunnerTimer
 /-! # C14 — a timed-out command is killed and reported promptly; a timely one is left alone
 
 Over EVERY schedule of the runner transition system (timer expiry, kill, process exit, reads,
-main-thread steps in any order).  `timed_out` is derived by the code from the liveness of the
-Timer thread at decision time and the timer is only cancelled in `stop()`, so both orderings
-"decide while the Timer thread is still inside `kill()`" and "the timer expires after the command
-has finished but before `stop()`" are reachable: the full statements are therefore FALSE of the
-code (DESIGN.md section 4 #26, a recorded known finding pinned by the repository's own tests); they
-are witnessed here by `…_counterexample` theorems, and the `_partial` theorems carry the excluding
-hypothesis.  Helper lemmas: `Lemmas/RunnerTimer.lean`. -/
+main-thread steps and environment events in any order).
+
+The repaired code (fix commit "timeout reporting no longer depends on Timer-thread timing") keeps
+three facts under a lock - `_process_done` (the wait loop saw the subprocess ended), `_kill_issued`
+(`kill()` ran while it was not known to have ended), `_kill_skipped` (`kill()` found it ended and did
+nothing) - disarms the timer as soon as the wait loop has seen a timely end, and reports a timeout
+iff a kill was issued.  "The command exceeds its timeout" is therefore, in the model as in the
+code, "the Timer thread's `kill()` ran before the main thread saw the subprocess ended"
+(`killIssued`), and "it finishes before its timeout" is "the main thread saw it ended before any
+kill was issued" (`Timely`).  With that reading both halves of the property hold on EVERY
+schedule, including the three interleavings that were known finding #26 of the unrepaired code
+(`race_*_repaired` below replay exactly those schedules).  Helper lemmas and the invariant
+`TimerInv`: `Lemmas/RunnerTimer.lean`. -/
 namespace Inv
 
-/-- a timed-out failure is only ever reported after the kill was issued and the timer ran to
-    completion: `CommandTimedOut` ⇒ exactly one kill -/
+/-- **timeout_kills_and_raises** - if the timer expired and its kill was issued (the command had
+    not been seen to end), then once `run` completes it raises the timed-out failure - whatever
+    `warn` is, whatever the exit status - unless a worker thread died (which is reported first,
+    C08).  The command has been killed exactly once and has ended. -/
+theorem timeout_kills_and_raises (hi ht w p e : Bool) (o er : List Chunk) (ins : List InItem) (ho sf : Bool)
+    (n : Nat) (evs : List Ev)
+    (hk : (run (S.init hi ht w p e o er ins ho sf n) evs).killIssued = true)
+    (hdone : (run (S.init hi ht w p e o er ins ho sf n) evs).mainPc = .done) :
+    ((run (S.init hi ht w p e o er ins ho sf n) evs).outcome = .threadExc ∨
+     ∃ rc, (run (S.init hi ht w p e o er ins ho sf n) evs).outcome = .timedOut rc) ∧
+    (run (S.init hi ht w p e o er ins ho sf n) evs).kills = 1 ∧
+    (run (S.init hi ht w p e o er ins ho sf n) evs).exited = true := by
+  have inv := timerInv_run _ evs (timerInv_init hi ht w p e o er ins ho sf n)
+  refine ⟨inv.issuedTimedOut (by rw [hdone]; rfl) hk, by rw [inv.kills, hk]; rfl, ?_⟩
+  exact killed_exited_run _ evs (by simp [S.init]) hk
+
+/-- the kill count IS the `kill issued` flag: the command is killed at most once, and exactly once
+    iff the timer's kill ran before the command was seen to end -/
+theorem kills_eq_issued (hi ht w p e : Bool) (o er : List Chunk) (ins : List InItem) (ho sf : Bool)
+    (n : Nat) (evs : List Ev) :
+    (run (S.init hi ht w p e o er ins ho sf n) evs).kills =
+      if (run (S.init hi ht w p e o er ins ho sf n) evs).killIssued then 1 else 0 :=
+  (timerInv_run _ evs (timerInv_init hi ht w p e o er ins ho sf n)).kills
+
+/-- a timed-out failure is only ever reported after the kill was issued: `CommandTimedOut` ⇒ exactly
+    one kill, and the command has ended -/
 theorem timed_out_means_killed (hi ht w p e : Bool) (o er : List Chunk) (ins : List InItem) (ho sf : Bool)
     (n : Nat) (evs : List Ev) (rc : Int) :
     (run (S.init hi ht w p e o er ins ho sf n) evs).outcome = .timedOut rc →
     (run (S.init hi ht w p e o er ins ho sf n) evs).kills = 1 ∧
-    (run (S.init hi ht w p e o er ins ho sf n) evs).tmPc = .done := by
+    (run (S.init hi ht w p e o er ins ho sf n) evs).exited = true := by
   intro h
   have inv := timerInv_run _ evs (timerInv_init hi ht w p e o er ins ho sf n)
-  have hd := inv.timedOutDone rc h
-  exact ⟨by rw [inv.kills, hd]; rfl, hd⟩
+  have hk := inv.timedOutIssued rc h
+  exact ⟨by rw [inv.kills, hk]; rfl, killed_exited_run _ evs (by simp [S.init]) hk⟩
 
 /-- the command is killed at most once -/
 theorem kills_at_most_once (hi ht w p e : Bool) (o er : List Chunk) (ins : List InItem) (ho sf : Bool)
@@ -29,6 +59,48 @@ theorem kills_at_most_once (hi ht w p e : Bool) (o er : List Chunk) (ins : List 
     (run (S.init hi ht w p e o er ins ho sf n) evs).kills ≤ 1 := by
   have inv := timerInv_run _ evs (timerInv_init hi ht w p e o er ins ho sf n)
   rw [inv.kills]; split <;> omega
+
+/-- **timely_command_normal** - if at any point of any schedule the main thread has seen the command
+    ended and no kill had been issued (`evs₁`), then along EVERY continuation (`evs₂`): nothing is
+    ever killed (neither before nor after `run` returns), the timed-out failure is never raised, the
+    exit status stays the command's own, and once `run` completes its outcome is the ordinary one -
+    a normal return or the unexpected-exit failure, by exit status and `warn` - unless a worker
+    thread died. -/
+theorem timely_command_normal (hi ht w p e : Bool) (o er : List Chunk) (ins : List InItem) (ho sf : Bool)
+    (n : Nat) (evs₁ evs₂ : List Ev)
+    (hpd : (run (S.init hi ht w p e o er ins ho sf n) evs₁).processDone = true)
+    (hnk : (run (S.init hi ht w p e o er ins ho sf n) evs₁).killIssued = false) :
+    (run (S.init hi ht w p e o er ins ho sf n) (evs₁ ++ evs₂)).kills = 0 ∧
+    (run (S.init hi ht w p e o er ins ho sf n) (evs₁ ++ evs₂)).killsAfterReturn = 0 ∧
+    (∀ rc, (run (S.init hi ht w p e o er ins ho sf n) (evs₁ ++ evs₂)).outcome ≠ .timedOut rc) ∧
+    (run (S.init hi ht w p e o er ins ho sf n) (evs₁ ++ evs₂)).rc = (run (S.init hi ht w p e o er ins ho sf n) evs₁).rc ∧
+    ((run (S.init hi ht w p e o er ins ho sf n) (evs₁ ++ evs₂)).mainPc = .done →
+      (run (S.init hi ht w p e o er ins ho sf n) (evs₁ ++ evs₂)).outcome = .threadExc ∨
+      (run (S.init hi ht w p e o er ins ho sf n) (evs₁ ++ evs₂)).outcome =
+        decideOutcome (run (S.init hi ht w p e o er ins ho sf n) (evs₁ ++ evs₂)) false) := by
+  have happ : run (S.init hi ht w p e o er ins ho sf n) (evs₁ ++ evs₂) =
+      run (run (S.init hi ht w p e o er ins ho sf n) evs₁) evs₂ := by simp [run, List.foldl_append]
+  have inv1 := timerInv_run _ evs₁ (timerInv_init hi ht w p e o er ins ho sf n)
+  have inv2 := timerInv_run _ (evs₁ ++ evs₂) (timerInv_init hi ht w p e o er ins ho sf n)
+  have sh2 := outcomeShape_run _ (evs₁ ++ evs₂) (timerInv_init hi ht w p e o er ins ho sf n)
+    (outcomeShape_init hi ht w p e o er ins ho sf n)
+  obtain ⟨t1, t2⟩ := timely_run _ evs₂ ⟨hpd, hnk⟩
+  rw [← happ] at t1 t2
+  have hk0 : (run (S.init hi ht w p e o er ins ho sf n) (evs₁ ++ evs₂)).kills = 0 := by rw [inv2.kills, t2]; rfl
+  have hnt : ∀ rc, (run (S.init hi ht w p e o er ins ho sf n) (evs₁ ++ evs₂)).outcome ≠ .timedOut rc := by
+    intro rc hrc; have := inv2.timedOutIssued rc hrc; rw [t2] at this; cases this
+  refine ⟨hk0, ?_, hnt, ?_, ?_⟩
+  · have := inv2.late; omega
+  · rw [happ]; exact (rc_frozen_run _ evs₂ (inv1.doneExited hpd)).1
+  · intro hd
+    have hsf : (run (S.init hi ht w p e o er ins ho sf n) (evs₁ ++ evs₂)).startFails = false := by
+      cases hx : (run (S.init hi ht w p e o er ins ho sf n) (evs₁ ++ evs₂)).startFails with
+      | false => rfl
+      | true => exact (startFails_never_done hi ht w p e o er ins ho sf n (evs₁ ++ evs₂) hx t1).elim
+    rcases sh2 (by rw [hd]; rfl) hsf with h | h | h
+    · exact Or.inl h
+    · obtain ⟨rc, hrc⟩ := h; exact absurd hrc (hnt rc)
+    · exact Or.inr h
 
 /-- without a timeout nothing is ever killed and no timed-out failure is ever raised -/
 theorem no_timeout_no_kill (hi w p e : Bool) (o er : List Chunk) (ins : List InItem) (ho sf : Bool)
@@ -41,39 +113,31 @@ theorem no_timeout_no_kill (hi w p e : Bool) (o er : List Chunk) (ins : List InI
   have hnt : (run (S.init hi false w p e o er ins ho sf n) evs).hasTimer = false := by
     have := ho'.2.1; simpa [S.init] using this
   have hnone := inv.noneIff.2 (Or.inl hnt)
-  refine ⟨by rw [inv.kills, hnone]; rfl, ?_⟩
+  have hf := inv.fired
+  rw [hnone] at hf
+  have hki : (run (S.init hi false w p e o er ins ho sf n) evs).killIssued = false := by
+    simp [timerFired] at hf; exact hf.1
+  refine ⟨by rw [inv.kills, hki]; rfl, ?_⟩
   intro rc hrc
-  have := inv.timedOutDone rc hrc
-  rw [hnone] at this; cases this
+  have := inv.timedOutIssued rc hrc
+  rw [hki] at this; cases this
 
-/-- `timeout_kills_and_raises_partial`: when the timer has expired, killed and run to completion
-    before the main thread decides, the run raises the timed-out failure - whatever `warn` is and
-    whatever the exit status - carrying the status the kill produced. -/
-theorem timeout_kills_and_raises_partial (s : S) (hc : s.mainPc = .checkTimeout) (ht : s.tmPc = .done) :
-    (step s .main).outcome = .timedOut s.rc := by
-  simp [step, mainStep, hc, ht, decideOutcome, timerAlive]
-
-/-- expiry kills: from an armed timer, two timer steps issue exactly one kill and leave the child
-    ended (status -9 unless it had ended already) -/
-theorem expiry_kills (s : S) (hh : s.hasTimer = true) (ha : s.tmPc = .armed) :
+/-- expiry kills: from an armed timer whose command has not been seen to end, two timer steps issue
+    exactly one kill and leave the child ended (status -9 unless it had ended already) -/
+theorem expiry_kills (s : S) (hh : s.hasTimer = true) (ha : s.tmPc = .armed) (hp : s.processDone = false) :
     (step (step s .timer) .timer).kills = s.kills + 1 ∧ (step (step s .timer) .timer).exited = true ∧
+    (step (step s .timer) .timer).killIssued = true ∧
     (s.exited = false → (step (step s .timer) .timer).rc = -9) := by
-  simp only [step, timerStep, hh, ha, Bool.not_true, Bool.false_eq_true, if_false, killEffect]
+  simp only [step, timerStep, hh, ha, hp, Bool.not_true, Bool.false_eq_true, if_false, killEffect]
   split <;> simp_all
 
-/-- `timely_command_normal_partial`: when the command has finished and the main thread decides
-    while the timer is still armed, the outcome ignores the timer (normal return / unexpected exit
-    by status and `warn`), the timer is cancelled by `stop()`, -/
-theorem timely_command_normal_partial (s : S) (hc : s.mainPc = .checkTimeout) (ha : s.tmPc = .armed) :
-    (step s .main).outcome = decideOutcome s false ∧
-    (∀ rc, (step s .main).outcome ≠ .timedOut rc) ∧
-    (step (step s .main) .main).tmPc = .cancelled ∧ (step (step s .main) .main).mainPc = .done := by
-  refine ⟨by simp [step, mainStep, hc, ha, timerAlive], ?_, by simp [step, mainStep, hc, ha], by simp [step, mainStep, hc, ha]⟩
-  intro rc
-  have : (step s .main).outcome = decideOutcome s false := by simp [step, mainStep, hc, ha, timerAlive]
-  rw [this]; exact decideOutcome_false_ne s rc
+/-- … while a timer that expires after the command was seen to end kills nothing -/
+theorem late_expiry_kills_nothing (s : S) (hh : s.hasTimer = true) (ha : s.tmPc = .armed) (hp : s.processDone = true) :
+    (step (step s .timer) .timer).kills = s.kills ∧ (step (step s .timer) .timer).killIssued = s.killIssued ∧
+    (step (step s .timer) .timer).rc = s.rc := by
+  simp [step, timerStep, hh, ha, hp]
 
-/-- … and a cancelled timer never kills: along every later schedule the kill count stays put -/
+/-- a cancelled timer never kills: along every later schedule the kill count stays put -/
 theorem cancelled_never_kills (s : S) (evs : List Ev) (hc : s.tmPc = .cancelled) :
     (run s evs).tmPc = .cancelled ∧ (run s evs).kills = s.kills ∧ (run s evs).killsAfterReturn = s.killsAfterReturn := by
   induction evs generalizing s with
@@ -92,52 +156,69 @@ theorem cancelled_never_kills (s : S) (evs : List Ev) (hc : s.tmPc = .cancelled)
         | stdin => simp only [evStep, step, stdinStep]; (repeat' split) <;> exact ⟨hc, rfl, rfl⟩
         | main =>
           simp only [evStep, step]
-          unfold mainStep nextJoin enterJoin afterJoins
+          unfold mainStep nextJoin enterJoin afterJoins leaveWait
           cases s.mainPc <;> simp only [] <;> (repeat' split) <;> simp_all
     obtain ⟨k1, k2, k3⟩ := key
     obtain ⟨i1, i2, i3⟩ := ih (evStep s e) k1
     exact ⟨i1, by rw [i2, k2], by rw [i3, k3]⟩
 
-/-! ### Counterexamples: the full statements fail on the code as it is (known finding #26) -/
+/-! ### The three race schedules of the former known finding #26, replayed on the repaired model -/
 
 def raceInit (warn : Bool) : S := S.init false true warn false false [] [] [] false false 1000
 
-/-- (i) `timeout_kills_and_raises` is false: the timer expires and kills the still-running command,
-    but the main thread decides while the Timer thread has not finished: under `warn` the run
-    RETURNS a result with status -9 instead of raising the timed-out failure. -/
-theorem timeout_raises_counterexample :
+/-- (i) the timer expires and kills the still-running command and the main thread decides while the
+    Timer thread has not finished: formerly `warn` made the run RETURN status -9; now it raises the
+    timed-out failure. -/
+theorem race_decide_during_kill_repaired :
     (run (raceInit true) [.act .timer, .act .timer, .act .main, .act .main, .act .main, .act .out, .act .main,
-                          .act .err, .act .main, .act .main, .act .main]).outcome = .ret (-9) ∧
+                          .act .err, .act .main, .act .main, .act .main]).outcome = .timedOut (-9) ∧
     (run (raceInit true) [.act .timer, .act .timer, .act .main, .act .main, .act .main, .act .out, .act .main,
                           .act .err, .act .main, .act .main, .act .main]).kills = 1 := by decide
 
-/-- (ii) `timely_command_normal` is false: the command exits with status 0 BEFORE the timer expires,
-    yet the timer fires during the joins: a kill is issued on the finished process and the timed-out
-    failure is raised. -/
-theorem timely_command_counterexample :
-    (run (raceInit false) [.env (.exit 0), .act .main, .act .main, .act .main, .act .timer, .act .timer, .act .timer,
+/-- (ii) the command exits with status 0 and is seen ended BEFORE the timer expires, the timer fires
+    right after: formerly a kill was issued on the finished process and the timed-out failure
+    raised; now nothing is killed and the run returns normally. -/
+theorem race_expiry_during_joins_repaired :
+    (run (raceInit false) [.env (.exit 0), .act .main, .act .main, .act .timer, .act .timer, .act .timer, .act .main, .act .main,
+                           .act .main, .act .out, .act .main, .act .err, .act .main, .act .main, .act .main]).outcome = .ret 0 ∧
+    (run (raceInit false) [.env (.exit 0), .act .main, .act .main, .act .timer, .act .timer, .act .timer, .act .main, .act .main,
+                           .act .main, .act .out, .act .main, .act .err, .act .main, .act .main, .act .main]).kills = 0 := by decide
+
+/-- (iii) the timer expires just before `stop()`: formerly the kill was issued after `run` had
+    returned normally; now the timer was disarmed when the wait loop saw the command ended. -/
+theorem race_kill_after_return_repaired :
+    (run (raceInit false) [.env (.exit 0), .act .main, .act .main, .act .main, .act .main, .act .main, .act .out, .act .main, .act .err,
+                           .act .main, .act .main, .act .timer, .act .main, .act .timer, .act .timer]).outcome = .ret 0 ∧
+    (run (raceInit false) [.env (.exit 0), .act .main, .act .main, .act .main, .act .main, .act .main, .act .out, .act .main, .act .err,
+                           .act .main, .act .main, .act .timer, .act .main, .act .timer, .act .timer]).killsAfterReturn = 0 ∧
+    (run (raceInit false) [.env (.exit 0), .act .main, .act .main, .act .main, .act .main, .act .main, .act .out, .act .main, .act .err,
+                           .act .main, .act .main, .act .timer, .act .main, .act .timer, .act .timer]).tmPc = .cancelled := by decide
+
+/-! ### The residual window (known finding C14-exit-unseen-at-expiry)
+
+`Timely` is judged by what the wait loop has SEEN.  Read against the environment instead ("the
+command ended before the timer's kill ran"), `timely_command_normal` is false of the code in one
+window: the command ends, and the timer fires before the wait loop polls again. -/
+
+/-- the command exits with status 0, the timer's kill runs before the next poll: a kill is issued on
+    the ended process and the timed-out failure is raised with the command's own status -/
+theorem exit_unseen_at_expiry_counterexample :
+    (run (raceInit false) [.env (.exit 0), .act .timer, .act .timer, .act .timer, .act .main, .act .main, .act .main,
                            .act .out, .act .main, .act .err, .act .main, .act .main, .act .main]).outcome = .timedOut 0 ∧
-    (run (raceInit false) [.env (.exit 0), .act .main, .act .main, .act .main, .act .timer, .act .timer, .act .timer,
+    (run (raceInit false) [.env (.exit 0), .act .timer, .act .timer, .act .timer, .act .main, .act .main, .act .main,
                            .act .out, .act .main, .act .err, .act .main, .act .main, .act .main]).kills = 1 := by decide
 
-/-- (iii) "nothing is killed afterwards" is false: the timer expires just before `stop()` (which
-    only cancels an armed timer); the kill is issued after `run` has already returned normally. -/
-theorem kill_after_return_counterexample :
-    (run (raceInit false) [.env (.exit 0), .act .main, .act .main, .act .main, .act .out, .act .main, .act .err, .act .main,
-                           .act .main, .act .timer, .act .main, .act .timer]).outcome = .ret 0 ∧
-    (run (raceInit false) [.env (.exit 0), .act .main, .act .main, .act .main, .act .out, .act .main, .act .err, .act .main,
-                           .act .main, .act .timer, .act .main, .act .timer]).killsAfterReturn = 1 := by decide
-
-/-- non-vacuity of the intended behaviour: expiry, kill and timer completion before main decides
-    gives the timed-out failure under `warn` too -/
+/-- non-vacuity of `timeout_kills_and_raises`: a schedule on which the kill is issued and `run`
+    completes, under `warn` -/
 example :
     (run (raceInit true) [.act .timer, .act .timer, .act .timer, .act .main, .act .main, .act .main, .act .out, .act .main,
-                          .act .err, .act .main, .act .main, .act .main]).outcome = .timedOut (-9) := by decide
+                          .act .err, .act .main, .act .main, .act .main]).killIssued = true ∧
+    (run (raceInit true) [.act .timer, .act .timer, .act .timer, .act .main, .act .main, .act .main, .act .out, .act .main,
+                          .act .err, .act .main, .act .main, .act .main]).mainPc = .done := by decide
 
-/-- non-vacuity: a timely command with the timer still armed returns normally, timer cancelled, no kill -/
+/-- non-vacuity of `timely_command_normal`: the premises hold after `exit 3; poll; polldead` -/
 example :
-    let s := run (raceInit false) [.env (.exit 0), .act .main, .act .main, .act .main, .act .out, .act .main, .act .err,
-                                   .act .main, .act .main, .act .main, .act .timer, .act .timer]
-    s.outcome = .ret 0 ∧ s.tmPc = .cancelled ∧ s.kills = 0 := by decide
+    (run (raceInit false) [.env (.exit 3), .act .main, .act .main]).processDone = true ∧
+    (run (raceInit false) [.env (.exit 3), .act .main, .act .main]).killIssued = false := by decide
 
 end Inv
